@@ -300,6 +300,24 @@ func cmdCheck(args []string) int {
 			}
 		}
 	}
+	// module callees that were given the property's default frame contract: their preserves
+	// clauses are obligations of this run too
+	{
+		var fns []*ssa.Function
+		for fn := range p.synthUsed {
+			fns = append(fns, fn)
+		}
+		sort.Slice(fns, func(i, j int) bool { return fns[i].String() < fns[j].String() })
+		for _, fn := range fns {
+			svc := newFnVC(p, fn, p.synthUsed[fn], p.contractID(fn))
+			svc.prop = *prop
+			for _, o := range svc.preservesObligations() {
+				all = append(all, o)
+				preSolved[o] = true
+			}
+			vcs = append(vcs, svc)
+		}
+	}
 	// guarded package variables: every module function that touches one must be among the
 	// functions verified in this run (their access sites carry the lock obligations)
 	verified := map[*ssa.Function]bool{}
@@ -390,6 +408,77 @@ func cmdCheck(args []string) int {
 		sort.Strings(bad)
 		if len(bad) > 0 {
 			o.Result = &SolveResult{Status: "sat", Solver: "callgraph-scan", Output: "Reason is set outside the functions under a C19 contract: " + strings.Join(bad, ", ")}
+		}
+		all = append(all, o)
+		preSolved[o] = true
+	}
+	// funnels: designated callees may only be called from the listed functions
+	for _, oc := range p.cs.OnlyCalledBy {
+		if !hasTag(oc.Tags, *prop) {
+			continue
+		}
+		allowed := map[string]bool{}
+		for _, c := range oc.Callers {
+			allowed[c] = true
+		}
+		var bad []string
+		matched := 0
+		for fn := range p.allFns {
+			if !inModule(fn) {
+				continue
+			}
+			id := p.contractID(fn)
+			if !strings.HasPrefix(id, oc.Pkg+"::") {
+				continue // the funnel is a statement about the declaring package
+			}
+			key := id
+			if k := strings.Index(id, "::"); k >= 0 {
+				key = id[k+2:]
+			}
+			for _, b := range fn.Blocks {
+				for _, ins := range b.Instrs {
+					ci, ok := ins.(ssa.CallInstruction)
+					if !ok {
+						continue
+					}
+					c := ci.Common()
+					hit := false
+					if strings.HasPrefix(oc.Callee, "type:") {
+						if c.StaticCallee() == nil && !c.IsInvoke() {
+							if n := namedOf(c.Value.Type()); n != nil && n.Obj().Name() == oc.Callee[5:] {
+								hit = true
+							}
+						}
+						// a package variable of that type called directly (DefaultReadFromURI)
+						if ld, ok := c.Value.(*ssa.UnOp); ok {
+							if _, isG := ld.X.(*ssa.Global); isG {
+								if n := namedOf(c.Value.Type()); n != nil && n.Obj().Name() == oc.Callee[5:] {
+									hit = true
+								}
+							}
+						}
+					} else if sc := c.StaticCallee(); sc != nil {
+						if sc.String() == oc.Callee {
+							hit = true
+						}
+						if cid := p.contractID(sc); cid == oc.Pkg+"::"+oc.Callee {
+							hit = true
+						}
+					}
+					if hit {
+						matched++
+					}
+					if hit && !allowed[key] {
+						bad = append(bad, key+" ("+p.fset.Position(ins.Pos()).String()+")")
+					}
+				}
+			}
+		}
+		o := &Obligation{Name: "funnel/" + oc.Callee + "/only-called-by-listed-functions", Class: "frame-scan", Func: oc.Callee, Tags: oc.Tags, Expect: "unsat", Src: fmt.Sprintf("onlycalledby %s : %s (%d call sites found)", oc.Callee, strings.Join(oc.Callers, ", "), matched)}
+		o.Result = &SolveResult{Status: "unsat", Solver: "callgraph-scan"}
+		sort.Strings(bad)
+		if len(bad) > 0 {
+			o.Result = &SolveResult{Status: "sat", Solver: "callgraph-scan", Output: "called outside the funnel: " + strings.Join(bad, "; ")}
 		}
 		all = append(all, o)
 		preSolved[o] = true
